@@ -543,8 +543,24 @@ def _sim_rename(src, dst, *a, **kw):
     kd = _key(dst) if _DISK is not None else None
     if ks is None and kd is None:
         return _real_rename(src, dst, *a, **kw)
-    if ks is None or kd is None:
-        raise HarnessError("rename across the simulated/real boundary")
+    if ks is None:
+        # a real file (staged in the system's temporary directory, say) moved onto the simulated disk
+        with _real_open(src, "rb") as f:
+            data = f.read()
+        _real_remove(src)
+        _DISK.files[kd] = bytearray(data)
+        _DISK.touch(_DISK.files[kd])
+        _DISK.seq += 1
+        _DISK.events.append((_DISK.seq, "rename", kd, 0, "", _DISK.actor, 0, 0))
+        return None
+    if kd is None:
+        if ks not in _DISK.files:
+            raise FileNotFoundError(errno.ENOENT, "No such file or directory", ks)
+        with _real_open(dst, "wb") as f:
+            f.write(bytes(_DISK.files.pop(ks)))
+        _DISK.seq += 1
+        _DISK.events.append((_DISK.seq, "unlink", ks, 0, "", _DISK.actor, 0, 0))
+        return None
     if ks not in _DISK.files:
         raise FileNotFoundError(errno.ENOENT, "No such file or directory", ks)
     _DISK.files[kd] = _DISK.files.pop(ks)
